@@ -563,6 +563,13 @@ def havoc(ex, st: State, c: Contract) -> H:
     h = st.h
     for n in c.modifies:
         h = h.set(n, ex.fresh(h.schema.array_sort(n[2:]) if n.startswith('f_') else BUILTIN_ARRAYS[n], n + '!h'))
+    if c.allocates and 'orig' not in c.modifies:
+        # the ghost origin map changes with every allocation — but only at fresh addresses (meta-invariant of `orig`)
+        o_orig, al0 = h.arr['orig'], h.alloc
+        h = h.set('orig', ex.fresh(BUILTIN_ARRAYS['orig'], 'orig!h'))
+        x_ = z3.Const('x!og', Addr)
+        st.assume(z3.ForAll([x_], z3.Implies(z3.And(x_ >= 0, x_ < al0), z3.Select(h.arr['orig'], x_) == z3.Select(o_orig, x_)),
+                            patterns=[z3.Select(h.arr['orig'], x_)]))
     if c.allocates:
         na = ex.fresh(z3.IntSort(), 'alloc!h')
         st.assume(na >= h.alloc)
